@@ -18,7 +18,7 @@ func init() {
 
 func runC18(r *engine.Run) {
 	r.Rule("ARITH", "every integer + - * / % , every numeric conversion and every call with a panicking precondition (decimal.NewFromFloat) in the hand-written functions of core/currency is discharged by an accepted guard idiom holding on every feasible path (wrap check on an operand, subtrahend<=minuend, post-division check of a product with a non-zero factor, non-zero divisor, sign / NaN / 2^64 rejection before float->uint64, NaN and Inf rejection before NewFromFloat); an instruction with no accepted guard is reported, an unknown operator form is undecided")
-	r.Rule("AGREE-op", "each named helper computes its result with the operator its name promises, on its parameters in order (AddCoin c+b, MinusCoin c-b, MultCoin c*b, DistributeCoin c/d and c%d, the Int64/Float64 variants delegate to them after conversion); ToZCN returns the Float64() of a decimal and does no floating-point arithmetic or integer-to-float conversion itself (scaling by 10^10 happens in decimal arithmetic, as in ParseZCN)")
+	r.Rule("AGREE-op", "each named helper computes its result with the operator its name promises, on its parameters in order (AddCoin c+b, MinusCoin c-b, MultCoin c*b, DistributeCoin c/d and c%d, the Int64/Float64 variants delegate to them after conversion); ToZCN returns the Float64() of a decimal and does no floating-point arithmetic or integer-to-float conversion itself (scaling by 10^10 happens in decimal arithmetic, as in ParseZCN); ParseZCN converts its argument with decimal.NewFromFloat (the exact shortest decimal) and with no other decimal constructor, so the too-many-decimals rejection stays reachable")
 	r.Rule("ARG-finite", "every helper taking a float64 reports success (nil error) only by returning the result of another float helper applied to a value computed from that argument, or on paths where math.IsNaN(argument) tested false and the argument is bounded from above (IsInf false or a comparison with a constant): no shortcut returns an amount for NaN or +Inf; when the argument is folded into another value before it is handed on (a product), it tested not negative first")
 	r.NotDec = append(r.NotDec, "decimal-exponent semantics of ParseZCN/ToZCN (library arithmetic)", "format-then-parse round trip")
 	r.Assume = append(r.Assume, "Coin(e.IntPart()) in ParseZCN: range established through the decimal API (Sign()==-1 and GreaterThan(maxDecimal) rejections must hold on every path), not through integer guards")
@@ -792,6 +792,48 @@ func zcnDecimal(r *engine.Run, rule string) {
 				fromDecimal = true
 			}
 		}
+	}
+	// ParseZCN: the decimal whose exponent decides "too many decimals" is the
+	// exact shortest-round-trip decimal of the argument (decimal.NewFromFloat).
+	// A constructor that rounds at a fixed scale can never have more than that
+	// many places, so ErrTooManyDecimals becomes unreachable and an amount with
+	// more than ten decimals is silently rounded.
+	if g := r.Fn(rule, pkgCur, "", "ParseZCN"); g != nil && len(g.Params) == 1 {
+		exact, other := 0, ""
+		engine.Instrs(g, func(in ssa.Instruction) {
+			c, ok := in.(*ssa.Call)
+			if !ok {
+				return
+			}
+			sc := c.Call.StaticCallee()
+			if sc == nil || sc.Pkg == nil || !strings.HasSuffix(sc.Pkg.Pkg.Path(), "shopspring/decimal") || !strings.HasPrefix(sc.Name(), "New") {
+				return
+			}
+			fromArg := false
+			for _, a := range c.Call.Args {
+				x := a
+				for {
+					if cv, ok := x.(*ssa.Convert); ok {
+						x = cv.X
+						continue
+					}
+					break
+				}
+				if x == ssa.Value(g.Params[0]) {
+					fromArg = true
+				}
+			}
+			if !fromArg {
+				return
+			}
+			if sc.Name() == "NewFromFloat" {
+				exact++
+			} else {
+				other = sc.Name() + " at " + r.P.Pos(c.Pos())
+			}
+		})
+		r.Check(exact >= 1 && other == "", rule, fn(g)+"|exact decimal of the argument", r.P.Pos(g.Pos()), "the amount is converted with decimal.NewFromFloat (shortest decimal that round-trips), the only constructor used on the argument",
+			"ParseZCN builds its decimal from the argument with "+other+" instead of the exact decimal.NewFromFloat: a constructor that rounds at a fixed scale makes the 'too many decimals' rejection unreachable (an amount with more than ten decimals is silently rounded) and changes the parsed amount of large fractional values")
 	}
 	r.Check(bad == "" && fromDecimal, rule, fn(f)+"|decimal scaling", r.P.Pos(f.Pos()), "the amount is scaled by the decimal library; ToZCN does no float arithmetic of its own",
 		"ToZCN no longer scales in decimal arithmetic ("+bad+"): the result is rounded twice, so formatting then parsing an amount above 2^53 units returns another amount")
